@@ -5,7 +5,7 @@ import MpVerif.C03.ModelWrite
 A transcription of `NLReader::Read(Reader*)` with `flags = 0` and of every function it calls, over the token
 stream.  The reader is generic in its `Reader` in the C++ too; here the token list plays that role.
 `Codec.rd x` is what `Reader::ReadDouble` returns for a double the writer printed with `%g`
-(text: `strtod(g_fmt(x))`, binary: the same 8 bytes); `Codec.vb x` the same for the header's `%.g`.
+(text: `strtod(g_fmt(x))`, binary: the same 8 bytes); `Codec.vb x` the same for the header's `%.17g` (libc).
 Recursion is bounded by fuel (one unit per nesting level / per segment); `readTokens` supplies the input length.
 -/
 namespace MpVerif.C03
